@@ -18,9 +18,12 @@ EXTENDS Integers, Sequences, FiniteSets, TLC, Json, IOUtils
 Ops == ndJsonDeserialize(IOEnv.OPS_FILE)
 NewLen == Ops[1].newlen          \* first line: header [op |-> "header", newlen |-> n]
 NOps == Len(Ops)
+OldLen == Ops[1].oldlen
 
 C(k, n) == [kind |-> k, n |-> n]
 Old == C("old", 0)  New == C("new", 0)  Empty == C("empty", 0)  Absent == C("absent", 0)
+\* the whole new data written over the old file without truncation: the new session when it is at least as long
+OverOld(n) == IF n >= OldLen THEN New ELSE C("oldpart", n)
 
 VARIABLES pc, names, vol, dur, fds, pdur, ninode, crashed, images
 \* names: name -> inode (0 none); vol: inode -> content; dur: inode -> set of contents possibly on disk
@@ -38,8 +41,8 @@ Nm(p) == IF p = "P" THEN "P" ELSE "T"
 Appended(c, n) ==   \* content after writing n more bytes at the current end / start
   CASE c.kind = "empty" -> IF n >= NewLen THEN New ELSE C("part", n)
     [] c.kind = "part" -> IF c.n + n >= NewLen THEN New ELSE C("part", c.n + n)
-    [] c.kind = "old" -> IF n >= NewLen THEN C("oldpart", NewLen) ELSE C("oldpart", n)
-    [] c.kind = "oldpart" -> C("oldpart", IF c.n + n >= NewLen THEN NewLen ELSE c.n + n)
+    [] c.kind = "old" -> IF n >= NewLen THEN OverOld(NewLen) ELSE C("oldpart", n)
+    [] c.kind = "oldpart" -> IF c.n + n >= NewLen THEN OverOld(NewLen) ELSE C("oldpart", c.n + n)
     [] OTHER -> c
 
 Step ==
